@@ -44,17 +44,22 @@ DuplexFault == [Base EXCEPT !.cl.form = "grpcweb", !.cl.major = 2, !.cl.codec = 
                             !.cl.frames = <<Frame(1, FALSE), [Frame(2, FALSE) EXCEPT !.fault = "flags:4"]>>,
                             !.hd.frames = <<Frame(9, FALSE)>>, !.hd.duplex = TRUE]
 DuplexFaultJson == [DuplexFault EXCEPT !.cl.codec = "json"]
+\* the backend's compressed response message decompresses but does not decode; before the handler returns,
+\* another RPC with a large response runs on the same Transcoder (whatever the failed RPC still holds of
+\* its message buffer is by then somebody else's)
+RespUndecodable == [OkStreamGzip EXCEPT !.cl.frames = <<Frame(1, TRUE)>>, !.cl.method = "SStream",
+                                       !.hd.frames = <<[Frame(9, TRUE) EXCEPT !.fault = "undecodable"]>>, !.hd.nestbig = TRUE]
 BackendPanic == [OkUnary EXCEPT !.hd.exit = "panic"]
 BackendError == [OkStreamGzip EXCEPT !.hd.end.code = 8, !.hd.errat = 0]
 BigResponse == [msgs |-> [x \in {"9"} |-> "size:5000"]] @@ OkUnary
 
 Kinds == {OkUnary, OkStreamGzip, RejectCodec, CutMid, Oversize, OversizeMeasure, CutMeasure, GzCorrupt, Undecodable,
-          BackendPanic, BackendError, BigResponse, CloseRace, DuplexFault, DuplexFaultJson}
+          BackendPanic, BackendError, BigResponse, CloseRace, DuplexFault, DuplexFaultJson, RespUndecodable}
 Probes == {OkUnary, OkStreamGzip, OkRest, OkServerStream}
 
 HInit == hist = <<>> /\ pr = OkUnary /\ hph = "grow" /\ Init
 Grow == /\ hph = "grow" /\ Len(hist) < (IF What = "history" THEN MaxHist ELSE NConc)
-        /\ \E k \in (IF What = "history" THEN Kinds ELSE Probes \cup {CutMid, Oversize, OversizeMeasure, GzCorrupt, BackendError, CloseRace, DuplexFault, DuplexFaultJson}) : hist' = Append(hist, k)
+        /\ \E k \in (IF What = "history" THEN Kinds ELSE Probes \cup {CutMid, Oversize, OversizeMeasure, GzCorrupt, BackendError, CloseRace, DuplexFault, DuplexFaultJson, RespUndecodable}) : hist' = Append(hist, k)
         /\ UNCHANGED <<pr, hph>>
 Pick == /\ hph = "grow"
         /\ (What = "conc" => Len(hist) >= 2)
